@@ -185,8 +185,10 @@ func judgeHook(aspects []font.Aspect, cands []int, q font.Aspect, st *stats, sc 
 	wit := func() Witness {
 		return Witness{Path: "hook", Aspects: append([]font.Aspect(nil), aspects...), Candidates: append([]int(nil), cands...), Query: q}
 	}
-	if pv, where := vrun.Catch(func() { got = fontscan.VerifRetainsBestMatches(aspects, sc.cands, q) }); pv != nil {
+	if panicked(func() { got = fontscan.VerifRetainsBestMatches(aspects, sc.cands, q) }) {
 		rep("C15/panic", func() (string, Witness) {
+			// executed again for the first few hits only: vrun.Catch collects the stack, which is slow
+			pv, where := vrun.Catch(func() { fontscan.VerifRetainsBestMatches(aspects, append([]int(nil), cands...), q) })
 			return fmt.Sprintf("retainsBestMatches panicked: %v at %s", pv, where), wit()
 		})
 		return false
@@ -217,6 +219,17 @@ func judgeHook(aspects []font.Aspect, cands []int, q font.Aspect, st *stats, sc 
 		st.nontrivial++
 		return true
 	}
+	return false
+}
+
+// panicked runs f and reports whether it panicked (no stack collection).
+func panicked(f func()) (p bool) {
+	defer func() {
+		if recover() != nil {
+			p = true
+		}
+	}()
+	f()
 	return false
 }
 
